@@ -22,6 +22,7 @@ FAULTS = collections.OrderedDict([
     ("message arrived before its receive was posted (unexpected queue)", "unexpected"),
     ("rendezvous send", "sends_rdv"),
     ("rendezvous send actually blocked", "rdv_blocked"),
+    ("non-blocking send whose buffer was read at transfer time (lazy)", "lazy_isends"),
     ("rank stall", "stalls"),
     ("virtual job duration / work()", "work_calls"),
     ("broadcast root waited for all receivers", "bcast_root_waited"),
@@ -266,9 +267,15 @@ def main():
             if r2["hash"] != h or r2["verdict"] != v:
                 nondet.append((seed, h, r2["hash"], v, r2["verdict"]))
     if nondet:
-        log("SIMULATOR NONDETERMINISM: %s" % nondet[:3])
-        print("INCONCLUSIVE property=%s simulator nondeterminism on seeds %s" % (pid, [n[0] for n in nondet[:5]]))
-        return 2
+        # Either the simulator is not deterministic (a bug of mine) or the code under test has behaviour that depends on the
+        # memory layout of the process (undefined behaviour). Decided below: violations that replay are reported first; failing
+        # that, the mismatching seeds are re-executed in the sanitised build.
+        log("event hash differs between two executions of the same seed: %s" % nondet[:3])
+    nondet_part = {}
+    for pi, part in enumerate(spec["parts"][tier]):
+        lo, hi = base * 100000000 + pi * 10000000, base * 100000000 + (pi + 1) * 10000000
+        for n in nondet:
+            if lo <= n[0] < hi: nondet_part.setdefault(pi, []).append(n[0])
 
     # ---- violations
     cand = agg.cand
@@ -334,6 +341,8 @@ def main():
     # process, i.e. undefined behaviour (e.g. a receive that writes through a dead buffer). Re-execute those seeds - same
     # configuration, same schedule - in the sanitised build, where such an error is reported deterministically.
     inconclusive = None
+    for pi, seeds in nondet_part.items():
+        unstable.append(("layout-dependent-behaviour", pi, seeds[:8]))
     if unstable and not new_violations and not known_lines:
         for cls, pi, seeds in unstable:
             part = dict(spec["parts"][tier][pi]); part["variant"] = "san"
@@ -347,7 +356,7 @@ def main():
                     if report(part, seed, c1, f1, [f1], san_cls): break
             if new_violations: break
         if not new_violations:
-            inconclusive = "violations were seen (%s) but none could be replayed deterministically in a fresh process, neither plain nor sanitised" % ", ".join(u[0] for u in unstable)
+            inconclusive = ("executions of the same seed differ (%s) and neither a replayable violation nor a sanitizer report explains it: simulator nondeterminism or unreproducible violation" % ", ".join(sorted(set(u[0] for u in unstable))))
     wall = time.time() - t0
 
     # ---- evidence
